@@ -144,10 +144,15 @@ func (e *Enc) evalBoolWatch(env *Env, x CExpr, cur, old *State, cl Clause) (Term
 
 func (e *Enc) evalBoolEnv(env *Env, x CExpr, cur, old *State, cl Clause) (t Term) {
 	env.cl = cl
+	e.evalFailed = false
 	defer func() {
 		if r := recover(); r != nil {
 			if ee, ok := r.(evalErr); ok {
-				e.w.contractErrors = append(e.w.contractErrors, ee.msg)
+				// the clause cannot be evaluated against the current source (an identifier it names
+				// is gone or ambiguous): as a goal it counts as not proved ("false"), as an assumption
+				// it is dropped by the caller (evalFailed)
+				e.evalErrs = append(e.evalErrs, ee.msg)
+				e.evalFailed = true
 				t = "false"
 				return
 			}
